@@ -33,7 +33,7 @@ ASSUMPTIONS = [
     "START/STOP/STARTING/STOPPING notifications legitimately depend on where the run is paused and are excluded from "
     "the digest; a TIME_CHANGED value announced again after a pause counts once",
     "independence of wall-clock speed is covered through pauses/segmentation, CPU contention of parallel children and a slow (yielding) vs. fast STARTING listener",
-    "single steps are not used as pause mechanism here (step() announces TIME_CHANGED unconditionally by design)",
+    "step() announces TIME_CHANGED unconditionally by design: repeated announcements of the same time count once, and the clock read inside a TIME_CHANGED notification is compared only for announcements that change the time",
 ]
 NONTRIVIAL_FLOOR = 0.05
 CHILD = os.path.join(os.path.dirname(os.path.abspath(__file__)), "_c07_child.py")
@@ -164,6 +164,7 @@ def run_case(case):
     if case.get("default_info"):
         out.label("default-stream-of-StreamInformation")
     plain = common.run_program(case, ["plain"])
+    ca_plain = common.LAST_CLOCK_ADVANCES
     # subscription order: every fire is delivered to the listeners subscribed to its type at the moment of
     # firing, in subscription order (the delivery log also carries the SUB / UNSUB operations of the run)
     nl = len(case["bus"]["listeners"])
@@ -205,6 +206,7 @@ def run_case(case):
     variants.append(("after-prior-activity", ["plain"]))
     variants.append(("second-replication-same-objects", ["plain", "twice"]))
     variants.append(("other-simulator-during-pause", ["pause-other", case["k"]]))
+    variants.append(("first-events-by-single-steps", ["steps", 1 + case["k"] % 9]))
     if (case.get("updater") or {}).get("fallback") == "default":
         out.label("default-fallback-updater")
         variants.append(("after-earlier-seed-updates", ["plain", "history"]))
@@ -215,6 +217,12 @@ def run_case(case):
         d = common.run_program(c_, drive[:1] + drive[2:] if drive[-1] == "twice" else drive, twice=drive[-1] == "twice")
         if d != plain:
             out.fail("digest-differs-" + name, _first_diff(plain, d))
+            break
+        if name == "first-events-by-single-steps" and common.LAST_CLOCK_ADVANCES != ca_plain:
+            # inside a TIME_CHANGED notification the clock still shows the time before the change - whether the
+            # event is carried out by step() or by the run loop
+            out.fail("clock-inside-time-changed-differs-steps", _first_diff({"x": ca_plain},
+                                                                             {"x": common.LAST_CLOCK_ADVANCES}))
             break
     if not out.disc:
         # the speed of a STARTING listener (wall-clock speed of user code) must not change the run
